@@ -762,6 +762,16 @@ def end_to_end(ctx):
             return sp.Rational(x.numerator, x.denominator)
         return all(sp.simplify(val.subs(nsym, k) - closed(k)) == 0 for k in range(1, 6))
 
+    def closed_near(val, nsym, qe):
+        for k in range(1, 6):
+            x = sum(((1 - qe) ** i for i in range(k + 1)), Fraction(0))
+            try:
+                if abs(complex(sp.N(val.subs(nsym, k), 30)) - float(x)) > 1e-9:
+                    return False
+            except Exception:  # noqa
+                return False
+        return True
+
     def float_finding(c, rp, raw, what):
         fl = c["float_last"][0]
         newv = ctx.violation(
@@ -808,8 +818,10 @@ def end_to_end(ctx):
                 if q["type"] == "exact":
                     stats["exact_ok"] += 1
                 ctx.sample({"bif": c["text"], "query": q["q"], "printed": raw, "enumeration": str(c["want"])}, limit=5)
-            elif gotf is not None and c["alt"] is not None and gotf == c["alt"][1] and \
-                    abs(gotf - c["want"]) < Fraction(1, 10 ** 9):
+            elif gotf is not None and c["float_last"] and abs(gotf - c["want"]) < Fraction(1, 10 ** 9):
+                # a float residue was exhibited in this very program and the answer deviates by its magnitude.
+                # (The program is then not a probability distribution: Polar's value need not equal the
+                # interpreter's, e.g. E[ind] ignores variables ind does not depend on.)
                 float_finding(c, rp, raw, f"{opt} \"{q['q']}\" prints {raw}; {truth} {c['want']}")
             else:
                 ctx.violation(f"e2e:{q['type']}:value", rp, f"{opt} \"{q['q']}\" prints {raw}; {truth} {c['want']}")
@@ -818,7 +830,7 @@ def end_to_end(ctx):
             # the defect of cli.common.transform_to_after_loop: E[count]_n printed instead of its limit.
             nsym = list(val.free_symbols)[0]
             exact_q = closed_ok(val, nsym, c["pe"])
-            float_q = (not exact_q) and c["alt"] is not None and closed_ok(val, nsym, c["alt"][0])
+            float_q = (not exact_q) and bool(c["float_last"]) and closed_near(val, nsym, c["pe"])
             if exact_q or float_q:
                 stats["sample_limit_missing"] += 1
                 new = ctx.violation(
@@ -832,7 +844,7 @@ def end_to_end(ctx):
                 if float_q:
                     ctx.coverage["obligations"] += 1
                     float_finding(c, rp, raw, f"--sample_time_until \"{q['q']}\": E[count]_n is computed with "
-                                              f"P(evidence) = {c['alt'][0]} instead of {c['pe']}")
+                                              f"a perturbed P(evidence) instead of {c['pe']}")
                 continue
         ctx.violation(f"e2e:{q['type']}:value", rp,
                       f"the {q['type']} query prints {raw}; expected {c['want']}")
